@@ -24,8 +24,9 @@ use std::collections::{BTreeMap, HashSet};
 use std::path::Path;
 
 pub const HEADER: &str = "From Coq Require Import List NArith ZArith String.\nFrom V Require Import Base.Util Base.Result Model.Registry Model.Settings Model.Subst Model.Builders Model.RngWords Model.ExampleRust Corr.RunTG Corr.RunC14.\nImport ListNotations. Open Scope string_scope.";
-pub const EVALS: [(&str, &str); 18] = [
+pub const EVALS: [(&str, &str); 19] = [
     ("known_F14", "known_F14"),
+    ("known_F15", "known_F15"),
     ("hyp_ok", "hyp_ok"),
     ("hyp_err", "hyp_err"),
     ("hyp_panic", "hyp_panic"),
